@@ -211,9 +211,9 @@ def run(ctx):
             os.remove(os.path.join(d, "c15.data"))
         env = dict(world)
         if c["hooks"]:
-            env["NANOLANG_VERIF_TRACE"] = os.path.join(d, "trace")
+            env["NANOLANG_VERIF_TRACE_COP"] = os.path.join(d, "trace")
         b = L.run_vm(ctx, tree, runner, nvm, d, "isolated", isolate=True, cop_dir=os.path.join(tree, "bin"), extra_env=env, timeout_ms=120000)
-        b["trace"] = env.get("NANOLANG_VERIF_TRACE") if c["hooks"] and os.path.exists(env.get("NANOLANG_VERIF_TRACE", "/nonexistent")) else None
+        b["trace"] = env.get("NANOLANG_VERIF_TRACE_COP") if c["hooks"] and os.path.exists(env.get("NANOLANG_VERIF_TRACE_COP", "/nonexistent")) else None
         return item, a, b, imports
 
     results = parallel_map(one, progs, jobs=8)
